@@ -404,32 +404,62 @@ def cmd_list():
     return 0
 
 
-def cmd_selfcheck_driver(pids):
-    """Run kani-driver itself (`cargo kani`, no --only-codegen, same compiler arguments) on all
-    harnesses and compare per-harness verdicts with our pipeline."""
+def cmd_selfcheck_driver(names):
+    """Cross-check of our post-build pipeline: run kani-driver itself (`cargo kani --harness ...`, separate target
+    dir because the harness selection changes the compiler arguments) on a sample of harnesses and compare, per
+    harness, the overall verdict and the verdict of every named check with what our pipeline reports."""
     from common import run
+    from registry import PROPS
+    if not names:
+        for pid, P in sorted(PROPS.items()):
+            q = [h for h in P["kani"] if h["tier"] == "quick"]
+            q.sort(key=lambda h: h.get("seconds") or 0)
+            names += [h["name"] for h in q[:2]]
+            names += [h["name"] for h in P["kani"] if h.get("expect") == "known-finding"][:1]
     b = kanitrack.build()
     if not b["ok"]:
         print("build failed")
         return 2
-    args = [a for a in kanitrack.BUILD_ARGS if a != "--only-codegen"] + ["-j", "12", "--output-format", "terse"]
+    metas = [kanitrack.find_harness(b["harnesses"], n) for n in names]
+    metas = [m for m in metas if m is not None]
+    ours = kanitrack.run_many(metas, os.path.join(CACHE, "run", "selfcheck"), 1800)
+    tgt = os.environ.get("VERIF_DRIVER_TARGET", os.path.join(CACHE, "kani-driver-target"))
+    args = ["--target-dir", tgt, "--no-default-features", "--features", KANI_FEATURES, "-Z", "function-contracts", "-Z", "stubbing",
+            "--exact", "-j", "6", "--output-format", "regular"]
+    for m in metas:
+        args += ["--harness", m["pretty_name"]]
     rc, so, se, secs = run(["cargo", "kani"] + args, cwd=CRATE, env=kanitrack.kani_env(), timeout=6 * 3600)
     text = so + se
+    # split driver output per harness
     drv = {}
-    for m in re.finditer(r"Checking harness (\S+)\.\.\.", text):
-        pass
-    failed = set(re.findall(r"Verification failed for - (\S+)", text))
-    names = list(b["harnesses"].keys())
-    ours = kanitrack.run_many([b["harnesses"][n] for n in names], os.path.join(CACHE, "run", "selfcheck"), 3600)
+    blocks = re.split(r"Checking harness ", text)
+    for bl in blocks[1:]:
+        hn = bl.split("...")[0].strip()
+        checks = {}
+        for cm in re.finditer(r"Check \d+: [^\n]*\n\s*- Status: (\w+)\n\s*- Description: \"([^\"]*)\"", bl):
+            if re.match(r"^C\d\d\.", cm.group(2)):
+                checks[cm.group(2)] = cm.group(1)
+        ver = "ok" if "VERIFICATION:- SUCCESSFUL" in bl else ("failed" if "VERIFICATION:- FAILED" in bl else "?")
+        drv[hn] = (ver, checks)
     bad = 0
-    for n, r in zip(names, ours):
-        d = "failed" if n in failed else "ok"
-        o = r["status"]
-        flag = "" if (d == o or (o == "undecided" and d == "failed")) else "   <-- MISMATCH"
-        if flag:
+    for m, r in zip(metas, ours):
+        n = m["pretty_name"]
+        d = drv.get(n)
+        if d is None:
+            print("%-80s driver: no output" % n)
             bad += 1
-        print("%-90s driver=%-7s ours=%s%s" % (n, d, o, flag))
-    print("driver run %.0fs, mismatches: %d" % (secs, bad))
+            continue
+        mism = []
+        if d[0] != r["status"]:
+            mism.append("overall driver=%s ours=%s" % (d[0], r["status"]))
+        for c in r["checks"]:
+            if c["cls"] != "cover" and c["name"] in d[1]:
+                want = {"SUCCESS": "discharged", "FAILURE": "refuted", "UNREACHABLE": "unreachable"}.get(d[1][c["name"]], d[1][c["name"]])
+                if want != c["verdict"]:
+                    mism.append("%s driver=%s ours=%s" % (c["name"], d[1][c["name"]], c["verdict"]))
+        print("%-80s %s named-checks-compared=%d %s" % (n, "AGREE" if not mism else "MISMATCH", len(d[1]), "; ".join(mism)))
+        bad += 1 if mism else 0
+    print("selfcheck-driver: %d harnesses, %d mismatches, driver run %.0fs" % (len(metas), bad, secs))
     return 0 if bad == 0 else 1
 
 
